@@ -1,6 +1,9 @@
 package stream
 
 import (
+	"bytes"
+	"reflect"
+	"unsafe"
 	"errors"
 	"fmt"
 	"net"
@@ -147,11 +150,19 @@ type recorder struct {
 	Msgs   int
 	closed bool
 	afterClose int
+	taint  func(s string) // looks for poison in what the parser hands out
 }
 
 func (r *recorder) ev(format string, a ...interface{}) {
 	if r.closed {
 		r.afterClose++
+	}
+	if r.taint != nil {
+		for _, x := range a {
+			if s, ok := x.(string); ok {
+				r.taint(s)
+			}
+		}
 	}
 	r.Events = append(r.Events, fmt.Sprintf(format, a...))
 }
@@ -170,6 +181,9 @@ func (r *recorder) OnContentLength(p *nbhttp.Parser, n int)        { r.ev("conte
 func (r *recorder) OnBody(p *nbhttp.Parser, data []byte) error {
 	if r.closed {
 		r.afterClose++
+	}
+	if r.taint != nil {
+		r.taint(string(data))
 	}
 	r.body = append(r.body, data...)
 	return nil
@@ -209,6 +223,30 @@ func feed(e *env, eng *nbhttp.Engine, isClient bool, pieces [][]byte) *feedResul
 	conn := &memConn{}
 	p := nbhttp.NewParser(conn, eng, rec, isClient, nil)
 	res := &feedResult{ErrAt: -1}
+	// The parser only ever hands out bytes of its input. If the input contains neither the
+	// poison of freed pool buffers (0xDB) nor the poison written over a read buffer after Parse
+	// returned (0xEE), such a byte in a callback argument or in the carry-over buffer proves
+	// that freed memory, or the caller's read buffer, was read later (C11).
+	cleanInput := true
+	for _, piece := range pieces {
+		if bytes.IndexByte(piece, poison) >= 0 || bytes.IndexByte(piece, 0xEE) >= 0 {
+			cleanInput = false
+		}
+	}
+	tainted := false
+	look := func(where string, s string) {
+		if !cleanInput || tainted {
+			return
+		}
+		if i := strings.IndexByte(s, poison); i >= 0 {
+			tainted = true
+			e.Pool.fail("read after free: %s contains the poison of a freed pool buffer at offset %d (%q); the input has no such byte", where, i, head([]byte(s), 40))
+		} else if i := strings.IndexByte(s, 0xEE); i >= 0 {
+			tainted = true
+			e.Pool.fail("stale reference: %s contains bytes of the caller's read buffer as overwritten after Parse returned, at offset %d (%q)", where, i, head([]byte(s), 40))
+		}
+	}
+	rec.taint = func(s string) { look("a parser callback argument", s) }
 	for i, piece := range pieces {
 		// hand the parser a private copy and poison it afterwards: the parser must not keep
 		// references into the read buffer
@@ -220,6 +258,7 @@ func feed(e *env, eng *nbhttp.Engine, isClient bool, pieces [][]byte) *feedResul
 		if live := e.Pool.Live + e.Body.Live; live > res.PeakCache {
 			res.PeakCache = live
 		}
+		look("the parser's carry-over buffer", string(parserCache(p)))
 		if err != nil {
 			res.Err = err
 			res.ErrAt = i
@@ -239,6 +278,15 @@ func feed(e *env, eng *nbhttp.Engine, isClient bool, pieces [][]byte) *feedResul
 	res.Events = rec.Events
 	res.AfterClose = rec.afterClose
 	return res
+}
+
+// parserCache reads the parser's carry-over buffer (unexported field bytesCached).
+func parserCache(p *nbhttp.Parser) []byte {
+	f := reflect.ValueOf(p).Elem().FieldByName("bytesCached")
+	if !f.IsValid() || f.Kind() != reflect.Ptr || f.IsNil() {
+		return nil
+	}
+	return *(*[]byte)(unsafe.Pointer(f.Pointer()))
 }
 
 func sameEvents(a, b []string) (bool, string) {
@@ -355,9 +403,9 @@ func genMsg(r *simrt.Rand, response bool, wellFormedOnly bool) MsgSpec {
 		m.ChunkExt = r.Bool(0.2)
 		if r.Bool(0.3) {
 			for i := 0; i < r.Range(1, 2); i++ {
-				m.Trailers = append(m.Trailers, [2]string{r.PickS("X-Checksum", "X-Trailer-B", "Expires"), headerValues[r.Intn(len(headerValues))]})
+				m.Trailers = append(m.Trailers, [2]string{r.PickS("X-Checksum", "X-Trailer-B", "Expires", "x-checksum", "x-length", "eTag"), headerValues[r.Intn(len(headerValues))]})
 			}
-			if len(m.Trailers) == 2 && m.Trailers[0][0] == m.Trailers[1][0] {
+			if len(m.Trailers) == 2 && strings.EqualFold(m.Trailers[0][0], m.Trailers[1][0]) {
 				m.Trailers = m.Trailers[:1]
 			}
 		}
